@@ -136,9 +136,9 @@ def run(ctx):
 
     # ---------------- zero_filter ----------------------------------------------------
     zcfgs = ([((3, 3), "{0, 1}", None), ((3, 3), "{0, 1, 2}", 1200)] if quick
-             # thorough: TLC enumerates all 262 144 + 531 441 images; a seeded 60 000 of each are replayed
-             # (all of them took well over an hour)
-             else [((3, 3), "{0, 1, 2, 3}", 60000), ((3, 4), "{0, 1, 2}", 60000)])
+             # thorough: every zero pattern of a 3x4 image, every 3-valued 3x3 and 4-valued 2x3 image
+             # (larger families made the dump of the state graph the bottleneck: hours)
+             else [((3, 3), "{0, 1, 2}", None), ((3, 4), "{0, 1}", None), ((2, 3), "{0, 1, 2, 3}", None)])
     for zshape, vals, nsample in zcfgs:
         g = load_states(ctx, "zero", {"NX": zshape[0], "NY": zshape[1], "Vals": vals})
         zstates = list(g.states.values())
@@ -409,7 +409,7 @@ def run(ctx):
             ctx.violation("trace/%s/%s" % (ev["event"], ",".join(bad)), {"event": ev, "line": line,
                                                                        "clauses": clauses})
     ctx.sample({"trace": traces[-1]})
-    ctx.exhaustive = False   # zero_filter images are sampled in both tiers (see zcfgs)
+    ctx.exhaustive = not quick
 
 
 if __name__ == "__main__":
